@@ -21,6 +21,8 @@ pub struct Norm {
     pub copied_to_map: bool,
     pub opaque_into: bool,
     pub collect_as_set: Vec<String>,
+    pub extend_with: Option<Vec<(String, String)>>,
+    pub copied_collect_as: Option<String>,
     pub await_yields: Option<String>,
     pub drop_calls: Vec<String>,
     pub opaque_macros: Vec<String>,
@@ -350,6 +352,8 @@ impl Norm {
             copied_to_map: req["copied_to_map"].as_bool().unwrap_or(false),
             opaque_into: req["opaque_into"].as_bool().unwrap_or(false),
             collect_as_set: strs("collect_as_set"),
+            extend_with: req["extend_with"].as_array().map(|a| a.iter().filter_map(|x| x.as_str()).filter_map(|x| x.split_once(':')).map(|(a, b)| (a.to_string(), b.to_string())).collect()),
+            copied_collect_as: req["copied_collect_as"].as_str().map(|x| x.to_string()),
             await_yields: req["await_yields"].as_str().map(|x| x.to_string()),
             drop_calls: strs("drop_calls"),
             opaque_macros: strs("opaque_macros"),
@@ -1349,6 +1353,37 @@ impl VisitMut for Norm {
                                 *e = ne;
                                 self.log("N8j-filter_map-collect-to-loop", sp);
                             }
+                        }
+                    }
+                    "extend" if mc.args.len() == 1 && is_copied_iter(&mc.args[0]) && self.extend_with.is_some() => {
+                        // N8l: X.extend(ITER.copied()) => for x in ITER { X.M(*x); } with M = push (Vec) / insert (sets), chosen per receiver text
+                        // by `extend_with=RECV:M,...` (definition of Extend for these collections: one element at a time, in iteration order)
+                        let recv_txt: String = mc.receiver.to_token_stream().to_string().chars().filter(|c| !c.is_whitespace()).collect();
+                        let m = self.extend_with.as_ref().unwrap().iter().find(|(r, _)| *r == recv_txt).map(|(_, m)| m.clone());
+                        if let (Some(m), Expr::MethodCall(inner)) = (m, &mc.args[0]) {
+                            let it = &inner.receiver;
+                            let x = self.fresh("x");
+                            let recv = &mc.receiver;
+                            let meth = Ident::new(&m, sp);
+                            let ne: Expr = parse_quote!(for #x in #it { #recv.#meth(*#x); });
+                            *e = ne;
+                            self.log("N8l-extend-copied-to-loop", sp);
+                        }
+                    }
+                    "collect" if mc.args.is_empty() && is_copied_iter(&mc.receiver) && self.copied_collect_as.is_some() => {
+                        // N8h (constructor form, option copied_collect_as=TYPE): ITER.copied().collect() (into TYPE, by inference) => insert loop
+                        if let Expr::MethodCall(inner) = &*mc.receiver {
+                            let it = &inner.receiver;
+                            let acc = self.fresh("set");
+                            let x = self.fresh("x");
+                            let ty: syn::Path = syn::parse_str(self.copied_collect_as.as_ref().unwrap()).expect("copied_collect_as");
+                            let ne: Expr = parse_quote!({
+                                let mut #acc: #ty<_> = Default::default();
+                                for #x in #it { #acc.insert(*#x); }
+                                #acc
+                            });
+                            *e = ne;
+                            self.log("N8h-copied-collect-to-set-loop", sp);
                         }
                     }
                     "collect" if mc.args.is_empty() && is_copied_iter(&mc.receiver) => {
